@@ -1044,6 +1044,39 @@ fn make_cont(kind: CKind, init: HVal) -> Cont {
 }
 
 pub fn setup_world(prog: &Program) {
+    // Dispose of the previous execution's world BEFORE the arena goes away. After a completed
+    // execution every pool is empty and everything is simply freed; after an aborted one the
+    // pools still hold guards/handles/containers whose destructors must not run (they point
+    // into an execution that was abandoned mid-flight): those elements are leaked, nothing else.
+    WORLD.with(|wc| {
+        let mut old = std::mem::take(&mut *wc.borrow_mut());
+        for g in old.guards.drain(..).flatten() {
+            std::mem::forget(g);
+        }
+        for g in old.tmp_guards.drain(..) {
+            std::mem::forget(g);
+        }
+        for h in old.handles.drain(..).flatten() {
+            std::mem::forget(h);
+        }
+        for m in old.mail.drain(..) {
+            for g in m.queue {
+                std::mem::forget(g);
+            }
+        }
+        for c in old.conts.drain(..) {
+            if let Some(rc) = c.c {
+                std::mem::forget(rc);
+            }
+        }
+        for c in old.caches.drain(..).flatten() {
+            std::mem::forget(c);
+        }
+        for a in old.accs.drain(..).flatten() {
+            std::mem::forget(a);
+        }
+        drop(old);
+    });
     arena::reset();
     arena::set_on_destroy(on_destroy);
     WORLD.with(|wc| {
@@ -1069,10 +1102,7 @@ pub fn setup_world(prog: &Program) {
                 && t.contains("Spawn")
         };
         nw.prog_wants_access = serde_json::to_string(prog).map(|t| t.contains("AccLoad")).unwrap_or(false);
-        // Dropping the previous world releases pointers into the (already reset) arena only by
-        // address: SimArc::drop would touch freed slots, so leak them instead.
-        let old = std::mem::replace(&mut *wc.borrow_mut(), nw);
-        std::mem::forget(old);
+        *wc.borrow_mut() = nw;
     });
 }
 
@@ -1585,6 +1615,13 @@ pub fn event_hook(id: u32, arg: usize) {
             }
         });
     } else if id == probes::COOLDOWN_STARTED {
+        w(|w| {
+            if w.payall_depth.get(me).copied().unwrap_or(0) > 0 {
+                // the node is retired while this thread is inside a debt walk: generation wrap in
+                // the helper's own nested load
+                *w.extra_counts.entry("node_retired_inside_debt_walk".into()).or_insert(0) += 1;
+            }
+        });
         let prev = w(|w| {
             w.live_users = w.live_users.saturating_sub(1);
             w.node_owner.remove(&arg)
